@@ -46,7 +46,7 @@ def c13_groups(cases, ctx):
     roots, opts = tuples(cases)
     rnd = random.Random(ctx["seed"] * 31 + 5)
     per = 40 if ctx["tier"] == "quick" else len(opts)
-    reps = 8 if ctx["tier"] == "quick" else 12
+    reps = 8 if ctx["tier"] == "quick" else 40
     out = []
     for rep in range(reps):
         for d in range(N_DOCS):
@@ -63,7 +63,7 @@ def c11_groups(cases, ctx):
     (state leaking from one call into the next shows as a difference between two calls on the same document)"""
     roots, opts = tuples(cases)
     rnd = random.Random(ctx["seed"] * 37 + 11)
-    reps = 8 if ctx["tier"] == "quick" else 50
+    reps = 8 if ctx["tier"] == "quick" else 120
     base = [o for o in opts if not o["nil"] and o["log"] in (0, 15) and o["url"] and not o["skip"]]
     out = []
     for rep in range(reps):
@@ -89,7 +89,7 @@ def c10_groups(cases, ctx):
     """per document and root kind: the same tree and the same Options value through every entry point, repeatedly"""
     roots, opts = tuples(cases)
     rnd = random.Random(ctx["seed"] * 41 + 3)
-    reps = 6 if ctx["tier"] == "quick" else 40
+    reps = 6 if ctx["tier"] == "quick" else 150
     out = []
     for rep in range(reps):
         for d in range(N_DOCS):
@@ -110,7 +110,7 @@ def c01_groups(cases, ctx):
     roots, opts = tuples(cases)
     rnd = random.Random(ctx["seed"] * 43 + 1)
     out = []
-    n_per = 5 if ctx["tier"] == "quick" else 40
+    n_per = 5 if ctx["tier"] == "quick" else 200
     for root in roots:
         for o in opts:
             if not o["url"] and o["log"] not in (0, 5, 15) and ctx["tier"] == "quick":
@@ -134,7 +134,7 @@ def c01_bytes(ctx):
     """byte-level inputs (produced by the driver, not by TLC): truncations, NULs, misnesting, deep nesting, tag soup"""
     rnd = random.Random(ctx["seed"] * 47 + 9)
     out = []
-    scale = 1 if ctx["tier"] == "quick" else 12
+    scale = 1 if ctx["tier"] == "quick" else 60
     def add(mode, param, n=1):
         for _ in range(n):
             o = dict(nil=False, log=rnd.choice([0, 0, 0, 15]), url=True, skip=False, algo=rnd.choice(["prevnext", "pagenumber"]))
@@ -173,19 +173,19 @@ ASSUME = [
 ]
 
 PROPS = {
-    "C13": dict(stages=[stage(c13_groups, 200, 4000)],
+    "C13": dict(stages=[stage(c13_groups, 200, 20000)],
                 rule="cases = groups: one document through many option tuples (all 16 log sets x algo x skip x url, from the TLC model); "
                      "non-trivial = calls that returned a result",
                 nontrivial_key="returned_result", assumptions=ASSUME, exhaustive_tiers=()),
-    "C11": dict(stages=[dict(stage(c11_groups, 150, 1000), two_orders=True), props_PN.STAGE_C11],
+    "C11": dict(stages=[dict(stage(c11_groups, 150, 3000), two_orders=True), props_PN.STAGE_C11],
                 rule="cases = groups: identical calls repeated, Apply vs ApplyForReader vs ApplyForFile on the same bytes, shuffled with other calls; "
                      "non-trivial = calls that returned a result",
                 nontrivial_key="returned_result", assumptions=ASSUME, exhaustive_tiers=()),
-    "C10": dict(stages=[stage(c10_groups, 250, 5000)],
+    "C10": dict(stages=[stage(c10_groups, 250, 20000)],
                 rule="cases = groups: the same tree (document / attached element / detached element) and the same Options value through "
                      "Apply, ApplyForReader, ApplyForURL (loopback), repeated; non-trivial = calls that returned a result",
                 nontrivial_key="returned_result", assumptions=ASSUME, exhaustive_tiers=()),
-    "C01": dict(stages=[stage(c01_groups, 12000, 200000, crash=True),
+    "C01": dict(stages=[stage(c01_groups, 12000, 400000, crash=True),
                         dict(name="bytes", cases_py=c01_bytes, sample=dict(quick=None, thorough=None), trace=TRACE,
                              crash_is_violation=True, validators=8, eval_key="calls", run_to_case=lambda r: r // 1000)],
                 rule="cases = root kind x option tuple (TLC product of spec/Distiller.tla) x rich document x page URL class (incl. odd URLs); "
